@@ -520,6 +520,14 @@ def rule_error_arity(ctx, repo, graph):
                     problems.append('keyword(s) %s not accepted' % bad)
                 elif bad:
                     problems.append('the execution state keywords %s are not accepted' % bad[:3])
+            # a value named like one parameter of the constructor passed in the position of another one (execution state
+            # handed over positionally: `EvalScriptError(msg, stack, scriptIn, ...)` puts the stack where `sop` is expected)
+            for k_, a_v in enumerate(args):
+                if isinstance(a_v, ast.Name) and k_ < len(pos) and a_v.id in pos and pos[k_] != a_v.id and a_v.id not in ('opcode', 'msg'):
+                    problems.append('the value `%s` is bound to parameter `%s` (position %d), not to `%s`' % (a_v.id, pos[k_], k_ + 1, a_v.id))
+            if problems and all('is bound to parameter' in p_ for p_ in problems):
+                r.violated(key, common.site_of(f, c), '`%s` builds %s with %s: the error carries the wrong execution state' % (norm(c)[:70], v.info.name, '; '.join(problems[:3])), sure=True)
+                continue
             if problems:
                 r.violated(key, common.site_of(f, c), '`%s` builds %s with %s: TypeError is raised instead of the script error' % (norm(c)[:70], v.info.name, '; '.join(problems)), sure=True)
             else:
